@@ -93,6 +93,9 @@ def handle (op : String) (args : List String) (text : String) : String :=
         let (t', k) := acc.1.step o.1 o.2.1 o.2.2
         (t', s!"{k}:{showObs t'}" :: acc.2)) (Tape.init, [])
       " # ".intercalate outs.reverse
+  | "sigcompat", [a, b] =>
+      let build (ops : String) : Tape := (parseOps ops.toList).foldl (fun t o => (t.step o.1 o.2.1 o.2.2).1) Tape.init
+      toString ((build a).sigCompatible (build b).signature)
   | "tapeopsh", [ops] =>
       let (t, h, n) := (parseOps ops.toList).foldl (fun (acc : Tape × UInt64 × Nat) o =>
         let (t', k) := acc.1.step o.1 o.2.1 o.2.2
